@@ -258,6 +258,22 @@ def run(ctx):
     if d1.violated != 'InversionSound':
         raise core.MachineryFailure('the model with deviation D1 should violate InversionSound, got %s' % d1.violated)
     ctx.cov['negative_controls_rejected'] += 1
+    # 1a. `-line-nums`: the mechanism as coded (ten stream transformers with their pockets; partition, translation,
+    # merge and the one-pass walker for several ranges) against the reference, for every list of ranges of the bound
+    def rs_cfg(max_n, bound, max_ranges, deviations=(), invariants=('MechanismExact', 'SingleAgreesWithMulti', 'MergedWellFormed')):
+        return ('SPECIFICATION Spec\nCONSTANTS MaxN = %d\n Bound = %d\n MaxRanges = %d\n Deviations = {%s}\n'
+                % (max_n, bound, max_ranges, ', '.join('"%s"' % d for d in deviations))
+                + ''.join('INVARIANT %s\n' % i for i in invariants) + 'CHECK_DEADLOCK FALSE\n')
+    rs = ctx.tlc('RangeStream', rs_cfg(3, 5, 2), coverage=True, name='mc-range-mechanism', timeout=3000)
+    ctx.require_coverage(rs, ['AddRange'])
+    if not quick:
+        ctx.tlc('RangeStream', rs_cfg(2, 4, 3), name='mc-range-mechanism-3-ranges', timeout=3000)
+    for dev in ('TouchingNotFused', 'PocketOffByOne'):
+        r = ctx.tlc('RangeStream', rs_cfg(3, 5, 2, deviations=[dev], invariants=['MechanismExact']),
+                    name='mc-range-mechanism-with-' + dev, count=False, must_hold=False, workers=4)
+        if r.violated != 'MechanismExact':
+            raise core.MachineryFailure('RangeStream with deviation %s should violate MechanismExact, got %s' % (dev, r.violated))
+        ctx.cov['negative_controls_rejected'] += 1
     # 1b. the interval algebra for ALL integers.  IntervalOps.tla is the algebra of LineFilter.tla without the
     # sentinel for "no limit"; TLC checks that the two are the same operators on a bounded domain (every pair of
     # interval pairs), Apalache proves the induction steps of IntervalSound / InversionSound for every integer
